@@ -1,0 +1,7 @@
+//go:build !verif
+
+package evaluator
+
+import "github.com/textwire/textwire/v2/object"
+
+func verifRead(env *object.Env, name string) {}
